@@ -89,7 +89,9 @@ class Addr:
         callback done via callLater
         """
         self._cancel_expiry()
-        del self.map.addr[self.name]
+        # we're registered under our name and our address
+        for key in [k for (k, v) in self.map.addr.items() if v is self]:
+            del self.map.addr[key]
         self.map.notify("addrmap_expired", *[self.name], **{})
 
 
